@@ -53,6 +53,8 @@ func RewriteClause(decls map[ast.PredicateSym]*ast.Decl, clause ast.Clause) ast.
 		case ast.Atom:
 			defVarMap := make(map[ast.Variable]bool)
 			ast.AddVars(p, defVarMap)
+			// Every wildcard is a variable of its own: it never gives a value to another one.
+			delete(defVarMap, ast.Variable{"_"})
 			defVars := make([]ast.Variable, 0, len(defVarMap))
 			for v := range defVarMap {
 				defVars = append(defVars, v)
@@ -93,12 +95,14 @@ func RewriteClause(decls map[ast.PredicateSym]*ast.Decl, clause ast.Clause) ast.
 			if leftHasValue {
 				ast.AddVars(p.Right, m)
 			}
+			delete(m, ast.Variable{"_"})
 			boundVars = NewVarList(m)
 
 		case ast.NegAtom:
 			varToBind := map[ast.Variable]bool{}
 			negVars := make(map[ast.Variable]bool)
 			ast.AddVars(p, negVars)
+			delete(negVars, ast.Variable{"_"})
 			for v := range negVars {
 				if boundVars.Find(v) == -1 {
 					varToBind[v] = true
